@@ -16,6 +16,18 @@ PROPS = {
   "note": TB + "Sequential consistency assumed (the shim serialises threads). Stop-source internals belong to C03's model. Schedulers/timers/io completions are C06/C07/C14.",
   "design_ref": "5/C01",
  },
+ "C02": {
+  "claimed": True, "drivers": [],
+  "technique": "Coq proof over the second-generation sender calculus Calc2 with explicit operation-state lifetimes (life-cycle automata per leaf instance, one mutual induction over start/stop/leafev) + K2v2 program differential in which every leaf operation state logs its destruction; E1 'freed'-flag theorems for the self-owning heap operations live in C09/C19/C13",
+  "text": ("PARTIAL. Theorems for ALL expressions over the Calc2 algorithm set (Calc + schedulers, via/on, let_value_with_stop_source, stop_if_requested, repeat_effect_until, retry_when, "
+           "when_any, into_variant) and ALL scripts: no operation state is destroyed while its operation is running; each started instance (including every re-start by repeat/retry) is destroyed "
+           "exactly once, strictly alternating with its starts; nothing touches an instance after its destruction; when the root has completed and been destroyed every started instance "
+           "has been destroyed (nothing leaked); after the root's completion only destruction events follow. Tie: generated expressions x scripts on the real library with logging leaf "
+           "op-states in poisoned storage; direct life-cycle monitor on the implementation trace. NOT in the model: lifetimes of stored values/callables/receivers, throwing copies / connect / "
+           "allocation (callable throws are); those are covered only where a unit monitors them (C09, C18)."),
+  "note": TB + "Stop-callback order inside one cascade is compared batch-wise (multiset + per-leaf order). thread_unsafe_event_loop's uninitialised links are C07's finding.",
+  "design_ref": "5/C02",
+ },
  "C03": {
   "claimed": True, "drivers": [],
   "technique": "Coq proof (inductive invariant, frames-per-thread model of inplace_stop_source with re-entrant callback bodies; all programs, all schedules) + K1 lock-step with the real inplace_stop_token.cpp, fused_stop_source and token adapter",
@@ -105,6 +117,16 @@ PROPS = {
            "type_erased_stream are a separate E1 unit (in progress)."),
   "note": TB + "on_stream/via_stream/delay/adapt variants are not in the model. reduce_stream has sends_done=false: after a stop the root is the partial fold as a value (stated as such).",
   "design_ref": "5/C13",
+ },
+ "C15": {
+  "claimed": True, "drivers": [],
+  "technique": "Coq proof (inductive invariants over all numbers of lockers and all schedules; v1 at pointer level over atomic_intrusive_queue, v2 over a two-phase abstract waiter list + cancellable bits + Dekker guard) + K1 lock-step with the real v1/v2 async_mutex",
+  "text": ("Theorems for ALL numbers of lockers/try_lockers/stoppers and ALL schedules: at most one holder, acquire and release alternate; waiters are exactly stack ++ pending, each resumed at most "
+           "once and all served at quiescence; v1 grants in the order of the successful enqueue CASes; no deadlock, bounded steps (v1); v2: tokens = locked (lock never leaked — refuted for the "
+           "code before the completion_forwarder fix, with witness), a cancelled waiter never owns the lock, FIFO over claims minus removed, the Dekker guard (unlocked with a waiter queued "
+           "implies some thread is about to re-examine), no deadlock. Tie: every schedule with <=2/<=3 pre-emptions + random of the real mutexes replayed step by step."),
+  "note": TB + "Sequential consistency (the Dekker fences are compared syntactically). The link-level atomic_intrusive_list is a NAMED ASSUMPTION (two-phase push/pop as observed in lock-step), not refined; its lifetime defect is a known finding (C16). v2 livelock-freedom is not proved.",
+  "design_ref": "5/C15",
  },
  "C16": {
   "claimed": True, "drivers": [],
